@@ -48,7 +48,7 @@ class ErrorHandling:
             else:
                 line = line.ljust(token.index)
 
-            line += token.value
+            line += self.lexer.text[token.index: token.end]
             lines_idx[token.lineno] = line
 
         msgs = []
@@ -62,7 +62,7 @@ class ErrorHandling:
             error_index = len(lines_idx[error_line_num])
         else:
             msgs.append('Syntax error, unknown input:')
-            error_len = len(self.bad_token.value)
+            error_len = self.bad_token.end - self.bad_token.index
             error_line_num = self.bad_token.lineno
             error_index = self.bad_token.index
 
